@@ -624,8 +624,7 @@ def check_inventory(case, res):
     st = engine_status(res)
     if st:
         return dict(status=st, detail=res.get("err", "")[-300:])
-    if "Negative concentration in MCD" in res.get("warn", "") and not case.get("ignore_added_mass_warning"):
-        return dict(status="engine-reports-added-mass", detail="")
+    added = "Negative concentration in MCD" in res.get("warn", "")
     isol, init, steps = parse_rows(res)
     cells = case["ncell_rows"]
     if not steps:
@@ -667,8 +666,10 @@ def check_inventory(case, res):
                              for s in sorted(steps) if all(k in steps[s] for k in cells))
         c, s, o, e = bad[0]
         return dict(status="mismatch", what="inventory %s after shift %d" % (c, s), observed=o, expected=e,
-                    detail="relative %.3g" % (abs(o - e) / abs(e) if e else float("inf")), prefix_family=fam_ok)
-    return dict(status="ok", worst=float(worst[0]), detail="")
+                    detail="relative %.3g%s" % (abs(o - e) / abs(e) if e else float("inf"),
+                                                 "; the engine reports 'Negative concentration in MCD: added ...'" if added else ""),
+                    prefix_family=fam_ok, added=added)
+    return dict(status="ok-engine-added-mass-below-tolerance" if added else "ok", worst=float(worst[0]), detail="")
 
 
 def check_exact_shift(case, res):
@@ -855,6 +856,8 @@ def gen_mcd_stability(rng):
     ishift = rng.choice([0, 0, 0, 1, -1])
     bcs = [2, 2, 3, 1]
     bcf, bcl = rng.choice(bcs), rng.choice(bcs)
+    if ishift == 0 and rng.random() < 0.5:
+        bcf = bcl = 2
     por = round(rng.uniform(0.1, 0.5), 2)
     dmax_est = 9.31e-9 * por
     F = rng.choice([0.2, 0.6, 0.9, 2.0, 5.0, 12.0, 30.0])       # Fourier number of the finest interface for the whole time step
@@ -987,6 +990,13 @@ def run(ctx):
     for i in range(nV):
         jobs.append((["exact-shift", "range"], gen_advect(rng), "V"))
     jobs.append((["inventory"], prefix_defect_case(), "known-defect"))
+    # explicit MCD with unequal lengths (sub-step count of init_mix): separate driver that also reports diffc_max / nmix
+    nS = ctx.n(40, 300) * boost
+    sjobs = []
+    for i in range(nS):
+        c = gen_mcd_stability(rng)
+        cks = ["mcd-nmix"] + (["inventory"] if c["ishift"] == 0 and c["bcf"] == 2 and c["bcl"] == 2 else [])
+        sjobs.append((cks, c, "S"))
     for (_, case, pool) in jobs:
         if pool == "B":
             case["shifts"] = min(case["shifts"], 2)
@@ -998,9 +1008,22 @@ def run(ctx):
     t1 = time.time()
     res = vlib.run_inputs([{"id": i, "db": "phreeqc.dat", "text": t, "flags": []} for i, t in enumerate(texts)],
                           timeout_each=120, workers=6)
+    stexts = [case_text(c) for (_, c, _) in sjobs]
+    sres = run_mcd_inputs([{"id": i, "text": t} for i, t in enumerate(stexts)], timeout_each=120, workers=6)
     tm["engine"] = round(time.time() - t1, 1)
     t1 = time.time()
     coq_terms = {}
+    for i, (checks, case, pool) in enumerate(sjobs):
+        r0 = sres.get(i, {"timeout": True})
+        for ck in checks:
+            r = CHECKS[ck](case, r0)
+            stats["%s/%s/%s" % (pool, ck, r["status"])] += 1
+            ctx.case([ck, slim(case)], sample=dict(check=ck, pool=pool, case=slim(case), result={k: v for k, v in r.items() if k in ("status", "nmix", "worst")}),
+                     nontrivial=r["status"].startswith("ok"))
+            if r["status"] in ("mismatch", "missing-rows", "engine-crash", "no-initmix-report"):
+                report(ctx, ck, case, stexts[i], {k: v for k, v in r.items() if k != "coq"})
+            if ck == "mcd-nmix" and r.get("coq"):
+                coq_terms[("S", i)] = coq_mcd_term(case, *r["coq"])
     for i, (checks, case, pool) in enumerate(jobs):
         r0 = res.get(i, {"timeout": True})
         for ck in checks:
@@ -1036,6 +1059,13 @@ def run(ctx):
     tm["coq_checker"] = round(time.time() - t1, 1)
     ctx.extra["timing_s"] = tm
     for i, v in out.items():
+        if isinstance(i, tuple):
+            stats["coq-mcd-nmix/%s" % v] += 1
+            if v is not True:
+                checks, case, pool = sjobs[i[1]]
+                report(ctx, "coq-mcd-nmix", case, stexts[i[1]], dict(status="mismatch", what="check_mcd_nmix = %s: the engine's number of MCD mixruns is not the model's" % v,
+                                                                     observed=str(v), expected="true", detail=""))
+            continue
         stats["coq-checker/%s" % v] += 1
         if v is not True:
             checks, case, pool = jobs[i]
@@ -1047,7 +1077,10 @@ def run(ctx):
                           "C": "general tracer columns (1..40 cells, decimal inputs): python mirror",
                           "R": "chemistry-rich dispersive/diffusive columns: python mirror for every element + range",
                           "I-*": "closed diffusion-only columns: inventory constancy 1e-9 (single D equal lengths, MCD, implicit, solids via SYS(), stagnant)",
-                          "V": "pure advection (ADVECTION / TRANSPORT): exact shift"}
+                          "V": "pure advection (ADVECTION / TRANSPORT): exact shift",
+                          "S": "explicit MCD, unequal lengths (finest cells at the end/start/middle/anywhere), time steps 0.2..30x the stability "
+                               "limit of the finest interface, all boundary pairs, with/without advection, mcd_substeps: mixruns = model (python + Coq "
+                               "check_mcd_nmix, diffc_max read from the engine by harness/c11_mcd.cpp); closed diffusion-only ones also inventory 1e-9"}
     ctx.rule = ("random column set-ups inside the property's domain (cells 1..40, equal/unequal lengths, dispersivities incl. 0, diffc, time step, "
                 "shifts, forward/backward/diffusion_only, all boundary pairs, correct_disp); a case is non-trivial when the engine ran it and at least "
                 "one shift moved something (status ok); model comparison per cell and shift: |obs-exp| <= 1e-9*|exp| + propagated engine slack")
@@ -1068,8 +1101,17 @@ def run_replay(ctx):
         vlib.coq_stage(ctx, "Props/Properties_C11.vo", gen=gen)
         return
     case, ck, txt = obj["case"], obj["check"], obj["input_text"]
-    res = vlib.run_inputs([{"id": 0, "db": obj.get("database", "phreeqc.dat"), "text": txt, "flags": []}], timeout_each=300)[0]
-    if ck == "coq-checker":
+    if case.get("kind") == "mcd-stability":
+        res = run_mcd_inputs([{"id": 0, "text": txt}], timeout_each=300)[0]
+    else:
+        res = vlib.run_inputs([{"id": 0, "db": obj.get("database", "phreeqc.dat"), "text": txt, "flags": []}], timeout_each=300)[0]
+    if ck == "coq-mcd-nmix":
+        r = check_mcd_nmix(case, res)
+        if r.get("coq"):
+            out, logs = coq_run_cases({0: coq_mcd_term(case, *r["coq"])}, shards=1)
+            if out[0] is not True:
+                r = dict(status="mismatch", what="check_mcd_nmix = %s" % out[0], observed=str(out[0]), expected="true")
+    elif ck == "coq-checker":
         col = []
         r = compare_tracer_case(case, res, collect=col)
         if r["status"] == "ok":
@@ -1079,5 +1121,5 @@ def run_replay(ctx):
     else:
         r = CHECKS[ck](case, res)
     ctx.case([ck, slim(case)], sample=dict(check=ck, result=r.get("status")))
-    if r["status"] not in ("ok", "ok-nothing-moves"):
-        report(ctx, ck, case, txt, r, key=obj.get("key"))
+    if not r["status"].startswith("ok"):
+        report(ctx, ck, case, txt, {k: v for k, v in r.items() if k != "coq"}, key=obj.get("key"))
